@@ -94,7 +94,8 @@ def itemDocOK : Item → Bool
 /-- per item: the test applied by `instance of` / `treat as` is true exactly when the one of
 `match_sequence_type` is, outside the trigger of F18d -/
 theorem instItem_iff (tb : Tables) (xsd11 : Bool) (t : Ty) (x : Item)
-    (htr : ∀ l o, t = .leaf l o → trigF18dItem l x = false) (hd : itemDocOK x = true) :
+    (htr : ∀ l o, t = .leaf l o → trigF18dItem l x = false) (hd : itemDocOK x = true)
+    (hk : t.hasTypeArg = false) :
     instItem tb xsd11 t x = .ok true ↔ itemFn tb xsd11 true t x = .ok true := by
   cases t with
   | empty => simp [instItem, instItemTok, itemFn]
@@ -112,6 +113,7 @@ theorem instItem_iff (tb : Tables) (xsd11 : Bool) (t : Ty) (x : Item)
   | leaf l o =>
     have htr := htr l o rfl
     cases l with
+    | kindT k' nt ta o' => simp [Ty.hasTypeArg, Leaf.hasTypeArg] at hk
     | item => cases x <;> simp [instItem, Leaf.isName, instItemTok, itemFn, matchLeaf]
     | funcAny => cases x <;> simp [instItem, Leaf.isName, instItemTok, itemFn, matchLeaf, Item.isFunctionLike, matchLeafNode]
     | mapAny =>
